@@ -151,6 +151,10 @@ func TestC03_P_PathSelector(t *testing.T) {
 		}
 		segs, nodes := genWalk(t, root)
 		target := nodes[len(nodes)-1]
+		if rapid.IntRange(0, 2).Draw(t, "noiseBefore") == 0 {
+			// the process has used other directories before, through the typed accessors as well
+			must(t, "reader noise", func() { readerNoise(rapid.IntRange(0, 500).Draw(t, "noiseSalt")) })
+		}
 		which := rapid.SampledFrom(c03Targets).Draw(t, "target")
 		perturb := "none"
 		exists := true
